@@ -17,7 +17,7 @@
 
 namespace trk {
 
-enum EvKind : int { CV = 0, CC = 1, CM = 2, AC = 3, AM = 4, DT = 5, US = 6 };
+enum EvKind : int { CV = 0, CC = 1, CM = 2, AC = 3, AM = 4, DT = 5, US = 6, AV = 7 };
 
 struct Ev {
     int kind;
@@ -95,6 +95,8 @@ struct TCM {
     TCM(TCM&& o) noexcept : v{o.v} { o.v = moved_marker; log(CM, this, &o, v, Tag); }
     auto operator=(TCM const& o) -> TCM& { v = o.v; log(AC, this, &o, v, Tag); return *this; }
     auto operator=(TCM&& o) noexcept -> TCM& { int t = o.v; o.v = moved_marker; v = t; log(AM, this, &o, v, Tag); return *this; }
+    // assignment from a value: makes is_assignable_v<T&, int> true (optional<T> = optional<int>); logged as AV
+    auto operator=(int x) noexcept -> TCM& { v = x; log(AV, this, nullptr, x, Tag); return *this; }
     ~TCM() { log(DT, this, nullptr, v, Tag); }
     auto operator()(int* peek) const -> int
     {
@@ -115,6 +117,8 @@ struct TM {
     auto operator=(TM const&) -> TM& = delete;
     TM(TM&& o) noexcept : v{o.v} { o.v = moved_marker; log(CM, this, &o, v, Tag); }
     auto operator=(TM&& o) noexcept -> TM& { int t = o.v; o.v = moved_marker; v = t; log(AM, this, &o, v, Tag); return *this; }
+    // assignment from a value: makes is_assignable_v<T&, int> true (optional<T> = optional<int>); logged as AV
+    auto operator=(int x) noexcept -> TM& { v = x; log(AV, this, nullptr, x, Tag); return *this; }
     ~TM() { log(DT, this, nullptr, v, Tag); }
 };
 
@@ -128,6 +132,8 @@ struct TC {
     explicit TC(int x) noexcept : v{x} { log(CV, this, nullptr, x, Tag); }
     TC(TC const& o) noexcept : v{o.v} { log(CC, this, &o, v, Tag); }
     auto operator=(TC const& o) noexcept -> TC& { v = o.v; log(AC, this, &o, v, Tag); return *this; }
+    // assignment from a value: makes is_assignable_v<T&, int> true (optional<T> = optional<int>); logged as AV
+    auto operator=(int x) noexcept -> TC& { v = x; log(AV, this, nullptr, x, Tag); return *this; }
     ~TC() { log(DT, this, nullptr, v, Tag); }
     auto operator()(int* peek) const -> int
     {
@@ -149,6 +155,8 @@ struct TT {
     explicit TT(int x) noexcept : v{x} { log(CV, this, nullptr, x, Tag); }
     TT(TT const& o) noexcept : v{o.v} { log(CC, this, &o, v, Tag); }
     auto operator=(TT const& o) noexcept -> TT& = default;
+    // assignment from a value: makes is_assignable_v<T&, int> true (optional<T> = optional<int>); logged as AV
+    auto operator=(int x) noexcept -> TT& { v = x; log(AV, this, nullptr, x, Tag); return *this; }
     ~TT() { log(DT, this, nullptr, v, Tag); }
     auto operator()(int* peek) const -> int
     {
@@ -158,6 +166,27 @@ struct TT {
 };
 static_assert(std::is_trivially_copy_assignable_v<TT<0>> && !std::is_trivially_copy_constructible_v<TT<0>>
               && !std::is_trivially_destructible_v<TT<0>>);
+
+// trivial default constructor, trivial destructor, trivial (defaulted) copy assignment, but a user-provided
+// copy constructor: no destructor or assignment events exist for this type; what can be observed is which
+// constructor ran on which storage from which source (op `pcopy`).
+struct TrkP {
+    static constexpr bool copyable = true;
+    static constexpr bool movable  = false;
+    int v;
+    TrkP() = default;
+    explicit TrkP(int x) noexcept : v{x} { log(CV, this, nullptr, x); }
+    TrkP(TrkP const& o) noexcept : v{o.v} { log(CC, this, &o, v); }
+    auto operator=(TrkP const& o) noexcept -> TrkP& = default;
+};
+static_assert(std::is_trivially_default_constructible_v<TrkP> && std::is_trivially_destructible_v<TrkP>
+              && std::is_trivially_copy_assignable_v<TrkP> && !std::is_trivially_copy_constructible_v<TrkP>);
+
+// derived element types: the members of a pair<Der<T0>, Der<T1>> convert to T0 / T1 (slicing copy / move)
+template <typename B>
+struct Der : B {
+    explicit Der(int x) noexcept : B(x) { }
+};
 
 // ---- locations -------------------------------------------------------------------------------
 // persistent slot: (c, i) with c >= 0; temporary: c = -1, i = address
@@ -274,6 +303,13 @@ struct Monitor {
                 if (is_move && ss != Dead) { st[s] = MovedFrom; }
                 st[l] = Live;
                 out.raw += std::string("A") + k3 + ":" + nl + ":" + ns;
+                break;
+            }
+            case AV: {
+                legal = ls != Dead;
+                tok(l, "Av");
+                st[l] = Live;
+                out.raw += "Av:" + nl + ":" + std::to_string(e.value);
                 break;
             }
             case DT: {
